@@ -76,7 +76,13 @@ def ob_step(a: int, b: int, c: int, hold: int, s0: int, r0: int) -> bool:
     data = None
     if ev in SC.MSG_EVENTS:
         data = SC.message_for(ev, w, a, b, c)
-        w.ev_data(data)
+        if P.get('cut'):
+            # the same message in two TCP segments: a counter must not depend on how often parse_buffer looks at it
+            cut = P['cut'] if P['cut'] > 0 else len(data) + P['cut']
+            w.ev_data(data[:cut])
+            w.ev_data(data[cut:])
+        else:
+            w.ev_data(data)
     else:
         SC.inject(w, ev, a, b, c)
     obs = SC.observe(w, mark)
@@ -131,6 +137,10 @@ def obligations(tier, seed):
         for ev in SC.EVENTS_BY_STATE[state]:
             out.append(ob('C18/step/%s/%s' % (S.STATE_NAMES[state], ev), 'ob_step', {'state': state, 'ev': ev},
                           covers=['stepped'], cap=120))
+            if ev in ('open_ok', 'upd', 'notif', 'rr', 'open_badver', 'upd_bad') and not (quick and state == S.OPENCONFIRM):
+                for cut in (19, -1, 5):
+                    out.append(ob('C18/step/%s/%s/cut=%d' % (S.STATE_NAMES[state], ev, cut), 'ob_step',
+                                  {'state': state, 'ev': ev, 'cut': cut}, covers=['stepped'], cap=120))
             if ev == 'badlen':
                 for (t, ln) in SC.BADLEN[1:]:
                     out.append(ob('C18/step/%s/%s/type=%d/len=%d' % (S.STATE_NAMES[state], ev, t, ln), 'ob_step',
